@@ -18,7 +18,10 @@ var commands = map[string]func(*Run){}
 // Properties whose inputs can take the whole process down (a panic in a server goroutine cannot
 // be recovered): the work runs in a child process; if it dies, the parent reports the crash with
 // the last datagram delivered as the replay.
-var isolated = map[string]bool{"C01": true, "C08": true, "C05": true, "C06": true, "C09": true, "C10": true, "C11": true, "C19": true, "C12": true}
+// Every property's stream runs in a child process: a panic or a runtime-detected deadlock in the code under test is
+// then reported as a violation (with the inputs recorded last and the trace) instead of killing the harness.
+var isolated = map[string]bool{"C01": true, "C02": true, "C03": true, "C04": true, "C05": true, "C06": true, "C07": true, "C08": true, "C09": true, "C10": true,
+	"C11": true, "C12": true, "C13": true, "C14": true, "C15": true, "C16": true, "C17": true, "C18": true, "C19": true, "C20": true}
 
 func main() {
 	if len(os.Args) < 2 {
